@@ -132,8 +132,8 @@ def r4_change_of(ctx):
             calls.append([load(interp, env, a) for a in args[1:]])
             return equal if equal is not None else TOP
         table = {"mahf::lens::LensRef::get_ref": ok(Sym("cur")), CC + "EqualityChecker::eq": eqf,
-                 "mahf::state::registry::StateRegistry::try_borrow_value_mut": ok(Ref(home, [])),
-                 "mahf::state::registry::StateRegistry::borrow_value_mut": Ref(home, [])}
+                 "mahf::state::registry::StateRegistry::try_borrow_value_mut": ok(Ref(home, [], frame="root")),
+                 "mahf::state::registry::StateRegistry::borrow_value_mut": Ref(home, [], frame="root")}
         paths = run_fn(F, fn, [me, Sym("problem"), Sym("state")], table, extra_env={home: NONE if prev is None else some(Sym(prev))})
         want = True if prev is None else (not equal)
         for p in paths:
@@ -208,7 +208,7 @@ def r6_logical(ctx):
                     return ok(outs[i]) if 0 <= i < len(outs) else TOP
                 me = Agg("adt", LG + nm, nm, [Vec("ops")])
                 home = 10000
-                it = install(Interp(fn.body, chain(mk_oracle({COND + "::evaluate": ev}), coll_oracle, std_oracle), [Ref(home, []), Sym("problem"), Sym("state")], facts=F, max_visits=10))
+                it = install(Interp(fn.body, chain(mk_oracle({COND + "::evaluate": ev}), coll_oracle, std_oracle), [Ref(home, [], frame="root"), Sym("problem"), Sym("state")], facts=F, max_visits=10))
                 it.extra_env = {home: me}
                 it.init_state = {"heap": {"ops": tuple(Sym("cond:%d" % i, boxlike=True) for i in range(k))}, "next_vec": 0}
                 n += 1
@@ -224,7 +224,7 @@ def r6_logical(ctx):
         def ev_err(interp, env, f, args):
             return err(Sym("boom"))
         home = 10000
-        it = install(Interp(fn.body, chain(mk_oracle({COND + "::evaluate": ev_err}), coll_oracle, std_oracle), [Ref(home, []), Sym("problem"), Sym("state")], facts=F, max_visits=10))
+        it = install(Interp(fn.body, chain(mk_oracle({COND + "::evaluate": ev_err}), coll_oracle, std_oracle), [Ref(home, [], frame="root"), Sym("problem"), Sym("state")], facts=F, max_visits=10))
         it.extra_env = {home: Agg("adt", LG + nm, nm, [Vec("ops")])}
         it.init_state = {"heap": {"ops": (Sym("cond:0", boxlike=True),)}, "next_vec": 0}
         ends = {(p.end, p.ret.variant if isinstance(p.ret, Agg) else None) for p in it.run()}
